@@ -8,7 +8,7 @@ From RPCX Require Wire.Bytes Wire.Header Wire.Codec Wire.CodecSpec.
 From RPCX Require Select.Simple Select.Jump Select.DoubleJump.
 From RPCX Require XClient.Breaker.
 From RPCX Require Client.ClientSM.
-From RPCX Require XClient.FailMode XClient.Multi XClient.Discovery.
+From RPCX Require XClient.FailMode XClient.Multi XClient.Discovery XClient.Backup.
 From RPCX Require Server.Dispatch.
 From RPCX Require Pool.Pool.
 From RPCX Require Server.Ingress.
@@ -29,7 +29,7 @@ Extraction "model.ml"
   Jump.jump Jump.hash_string DoubleJump.ch_new DoubleJump.ch_update DoubleJump.ch_select
   Breaker.b_run Breaker.b_init Breaker.xb_run
   ClientSM.run ClientSM.init ClientSM.new_call
-  FailMode.xcall
+  FailMode.xcall Backup.xcall_backup
   Multi.broadcast Multi.fork Multi.inform
   Discovery.drun Discovery.drain Discovery.filter_servers
   Dispatch.crun Dispatch.cinit
